@@ -324,6 +324,21 @@ func (s *Sim) opConnect() {
 		s.floor = h - s.K.Limit + 1
 	}
 	s.depth = 0
+	// Assumption: a rescan does not outlive the maturity of its request
+	// (buried past the safety limit, when the notifier forgets it).
+	for _, q := range append([]*rescan(nil), s.rescans...) {
+		for _, m := range s.matches(q.rs) {
+			if h-m.b.height >= s.K.Limit {
+				s.removeRescan(q)
+				if q.rs.outstanding == q {
+					q.rs.outstanding = nil
+					q.rs.dropped = true
+				}
+				r.Count("probe_rescan_outlived")
+				break
+			}
+		}
+	}
 	r.Logf("ConnectTip %v hash=%s txs=%v", b, short(b.hash), txs)
 	s.cur = callCtx{kind: "ConnectTip", blk: b}
 	err := s.call("ConnectTip", func() error { return s.nt.ConnectTip(b.ub, h) })
